@@ -7,4 +7,6 @@ var verifHarnesses = map[string]func(){
 	"VerifC18FrameRoundTrip": VerifC18FrameRoundTrip,
 	"VerifC18FrameArbitrary": VerifC18FrameArbitrary,
 	"VerifC18FrameAlloc":     VerifC18FrameAlloc,
+	"VerifC04Cache":          VerifC04Cache,
+	"VerifC04CacheLock":      VerifC04CacheLock,
 }
